@@ -8,6 +8,7 @@ import (
 	"context"
 	"fmt"
 	"net"
+	"net/netip"
 	"runtime"
 	"strings"
 	"sync"
@@ -92,6 +93,58 @@ func (m *fnCountingTCPMux) RemoveConnByUfrag(ufrag string) {
 func (m *fnCountingTCPMux) Close() error        { return m.inner.Close() }
 func (m *fnCountingTCPMux) LocalAddr() net.Addr { return m.inner.LocalAddr() }
 
+// fnCountingSrflxMux wraps a real UniversalUDPMuxDefault (srflx mux) and counts the handles it hands out.
+type fnCountingSrflxMux struct {
+	inner   *UniversalUDPMuxDefault
+	mu      sync.Mutex
+	handles []*fnHandle
+	removed []string
+}
+
+func (m *fnCountingSrflxMux) wrap(c net.PacketConn, err error, ufrag string) (net.PacketConn, error) {
+	if err != nil {
+		return nil, err
+	}
+	h := &fnHandle{PacketConn: c, ufrag: ufrag}
+	m.mu.Lock()
+	m.handles = append(m.handles, h)
+	m.mu.Unlock()
+
+	return h, nil
+}
+
+func (m *fnCountingSrflxMux) GetConn(ufrag string, addr net.Addr) (net.PacketConn, error) {
+	c, err := m.inner.GetConn(ufrag, addr)
+
+	return m.wrap(c, err, ufrag)
+}
+
+func (m *fnCountingSrflxMux) GetConnForURL(ufrag, url string, addr net.Addr) (net.PacketConn, error) {
+	c, err := m.inner.GetConnForURL(ufrag, url, addr)
+
+	return m.wrap(c, err, ufrag)
+}
+
+func (m *fnCountingSrflxMux) RemoveConnByUfrag(ufrag string) {
+	m.mu.Lock()
+	m.removed = append(m.removed, ufrag)
+	m.mu.Unlock()
+	m.inner.RemoveConnByUfrag(ufrag)
+}
+func (m *fnCountingSrflxMux) GetListenAddresses() []net.Addr { return m.inner.GetListenAddresses() }
+func (m *fnCountingSrflxMux) Close() error                   { return m.inner.Close() }
+func (m *fnCountingSrflxMux) GetXORMappedAddr(a net.Addr, d time.Duration) (*stun.XORMappedAddress, error) {
+	return m.inner.GetXORMappedAddr(a, d)
+}
+
+func (m *fnCountingSrflxMux) GetXORMappedAddrContext(ctx context.Context, a net.Addr, d time.Duration) (*stun.XORMappedAddress, error) {
+	return m.inner.GetXORMappedAddrContext(ctx, a, d)
+}
+
+func (m *fnCountingSrflxMux) GetRelayedAddr(a net.Addr, d time.Duration) (*net.Addr, error) {
+	return m.inner.GetRelayedAddr(a, d)
+}
+
 func handleTally(hs []*fnHandle) (open []string, multi []string) {
 	for i, h := range hs {
 		h.mu.Lock()
@@ -134,7 +187,7 @@ func c09ConfigGen() *rapid.Generator[c09Config] {
 		c.StunMode = rapid.SampledFrom([]string{"now", "later", "later", "never"}).Draw(t, "stunMode")
 		c.TurnProto = rapid.SampledFrom([]string{"udp", "tcp"}).Draw(t, "turnProto")
 		c.TurnMode = rapid.SampledFrom([]string{"ok", "ok", "allocate-blocks", "allocate-blocks", "listen-error", "allocate-error", "factory-error", "relay-linklocal"}).Draw(t, "turnMode")
-		c.Mux = rapid.SampledFrom([]string{"", "", "udp", "tcp"}).Draw(t, "mux")
+		c.Mux = rapid.SampledFrom([]string{"", "", "udp", "tcp", "udp-srflx"}).Draw(t, "mux")
 		c.Rewrite = rapid.SampledFrom([]string{"", "", "srflx-mapped", "srflx-mapped-2", "srflx-drop", "host-append", "host-dup", "relay-drop", "relay-append"}).Draw(t, "rewrite")
 		if rapid.IntRange(0, 4).Draw(t, "listenErr") == 0 {
 			c.ListenErrAt = rapid.IntRange(1, 4).Draw(t, "listenErrAt")
@@ -156,6 +209,9 @@ func hasType(ts []CandidateType, t CandidateType) bool {
 }
 
 type c09World struct {
+	srflxMux *fnCountingSrflxMux
+	srflxBase *c12Base
+	srflxPending []c12In
 	fn      *fakeNet
 	agent   *Agent
 	udpMux  *fnCountingUDPMux
@@ -214,6 +270,35 @@ func newC09World(cfg c09Config, extra ...AgentOption) (*c09World, error) {
 		w.tcpMux = &fnCountingTCPMux{inner: NewTCPMuxDefault(TCPMuxParams{Listener: w.ln, Logger: lf.NewLogger("mux"), ReadBufferSize: 8})}
 		nts = append(nts, NetworkTypeTCP4)
 		opts = append(opts, WithTCPMux(w.tcpMux))
+	case "udp-srflx":
+		// server-reflexive candidates through a universal UDP mux; the STUN server is scripted on the mux's socket
+		w.srflxBase = newC12Base(cfg.Addrs[0] + ":7100")
+		base := w.srflxBase
+		mode := cfg.StunMode
+		base.onWrite = func(data []byte, dst netip.AddrPort) {
+			if dst.String() != "198.51.100.1:3478" || !stun.IsMessage(data) {
+				return
+			}
+			m := &stun.Message{Raw: data}
+			if m.Decode() != nil || m.Type != stun.BindingRequest {
+				return
+			}
+			resp, err := stun.Build(stun.BindingSuccess, stun.NewTransactionIDSetter(m.TransactionID),
+				&stun.XORMappedAddress{IP: net.IPv4(203, 0, 113, 60), Port: 7100}, stun.Fingerprint)
+			if err != nil {
+				return
+			}
+			switch mode {
+			case "now":
+				go base.push(c12In{resp.Raw, dst})
+			case "later":
+				w.fn.mu.Lock()
+				w.srflxPending = append(w.srflxPending, c12In{resp.Raw, dst})
+				w.fn.mu.Unlock()
+			}
+		}
+		w.srflxMux = &fnCountingSrflxMux{inner: NewUniversalUDPMuxDefault(UniversalUDPMuxParams{Logger: lf.NewLogger("mux"), UDPConn: base, XORMappedAddrCacheTTL: time.Hour})}
+		opts = append(opts, WithUDPMuxSrflx(w.srflxMux))
 	}
 	opts = append(opts, WithNetworkTypes(nts))
 	switch cfg.Rewrite {
@@ -301,7 +386,29 @@ func (w *c09World) waitCycles() bool {
 	return true
 }
 
+// releaseSrflxMuxReply answers the oldest withheld STUN request of the srflx mux.
+func (w *c09World) releaseSrflxMuxReply() bool {
+	if w.srflxBase == nil {
+		return false
+	}
+	w.fn.mu.Lock()
+	if len(w.srflxPending) == 0 {
+		w.fn.mu.Unlock()
+
+		return false
+	}
+	in := w.srflxPending[0]
+	w.srflxPending = w.srflxPending[1:]
+	w.fn.mu.Unlock()
+	go w.srflxBase.push(in)
+
+	return true
+}
+
 func (w *c09World) shutdownMuxes() {
+	if w.srflxMux != nil {
+		_ = w.srflxMux.Close()
+	}
 	if w.udpMux != nil {
 		_ = w.udpMux.Close()
 	}
@@ -313,6 +420,8 @@ func (w *c09World) shutdownMuxes() {
 // releaseEverything lets all withheld exchanges finish so that goroutines can wind down.
 func (w *c09World) releaseEverything() {
 	for w.fn.releaseOne() {
+	}
+	for w.releaseSrflxMuxReply() {
 	}
 	for i := 0; i < 8; i++ {
 		select {
@@ -359,6 +468,9 @@ func TestVerif_C09_SocketTally(t *testing.T) {
 			if w.tcpMux != nil {
 				hs = append(hs, w.tcpMux.handles...)
 			}
+			if w.srflxMux != nil {
+				hs = append(hs, w.srflxMux.handles...)
+			}
 			hopen, multi := handleTally(hs)
 			if len(hopen) != 0 {
 				st.Fail(rt, "C09/leak/mux-handle-open-after-"+where, "mux handle(s) never closed: %v\nconfig: %+v\nops: %s", hopen, cfg, strings.Join(ops, "; "))
@@ -395,7 +507,7 @@ func TestVerif_C09_SocketTally(t *testing.T) {
 				}
 				ops = append(ops, fmt.Sprintf("gather=%v(progress %d)", err, want))
 			case "release":
-				if w.fn.releaseOne() {
+				if w.fn.releaseOne() || w.releaseSrflxMuxReply() {
 					ops = append(ops, "releaseStunReply")
 				}
 			case "turnRelease":
